@@ -179,11 +179,15 @@ fn plan16(seed: u64, run: u64, tier: Tier) -> Plan16 {
                 kind_full.push_str("+inline");
             }
             2 | 3 => {
-                let shape = mapgen::gen_shape(&mut rng);
-                let m = mapgen::gen_orig_map(&mut rng, &text, &shape);
-                let rel = format!("maps/s{}.js.map", si);
-                for f in &files {
-                    fs.nodes.insert(join(&dir_of(f), &rel), FsNode::Text(m.to_json()));
+                // the same relative name resolves to a *different* map in every directory
+                let rel = if rng.chance(1, 2) { format!("maps/s{}.js.map", si) } else { "index.js.map".to_string() };
+                let mut dirs: Vec<String> = files.iter().map(|f| dir_of(f)).collect();
+                dirs.sort();
+                dirs.dedup();
+                for d in &dirs {
+                    let shape = mapgen::gen_shape(&mut rng);
+                    let m = mapgen::gen_orig_map(&mut rng, &text, &shape);
+                    fs.nodes.insert(join(d, &rel), FsNode::Text(m.to_json()));
                 }
                 text.push_str(&format!("\n//# sourceMappingURL={}\n", rel));
                 kind_full.push_str("+external");
